@@ -8,3 +8,7 @@ require (
 	golang.org/x/mod v0.41.0 // indirect
 	golang.org/x/sync v0.23.0 // indirect
 )
+
+require vhlib v0.0.0
+
+replace vhlib => ./vhlib
